@@ -66,7 +66,7 @@ def _readback(x):
 
 def _readback_elem(a, idx):
     # the element is the RIGHT operand: a negative multi-dimensional or char element as the left operand
-    # of a binary operator is taken for a pointer and crashes the interpreter (finding C04-negative-element-left-operand-crash)
+    # of a binary operator was taken for a pointer and crashed the interpreter (repaired by 7c216d9; kept, harmless)
     return "(print 1 (bin + 0 (idx %d %s)))" % (a, " ".join(map(str, idx)))
 
 
@@ -207,7 +207,7 @@ def build(path, t, v, rng):
         M += [_readback_elem(1, [k])] + [_readback_elem(1, [j]) for j in range(n) if j != k]
         extra = [0] * (n - 1)
     elif p == "elem1-compound":
-        # (a negative char element as the left operand of + crashes the interpreter: start >= 0 for char)
+        # (a negative char element as the left operand of + crashed the interpreter before 7c216d9: start >= 0 for char)
         r = compound_operands("add", t, v, rng, nonneg_start=(t == "char"))
         if r is None:
             return None
